@@ -29,6 +29,7 @@ fn main() {
         "yuv-img" => s_yuv::img(&rest[0]),
         "decode" => s_decode::decode(&rest[0], &rest[1]),
         "header" => s_decode::header(&rest[0]),
+        "threads" => s_decode::threads(&rest[0], rest[1].parse().unwrap(), rest[2].parse().unwrap(), &rest[3]),
         other => {
             eprintln!("unknown suite {other}");
             std::process::exit(2);
